@@ -25,7 +25,7 @@ ASSUMPTIONS = ['fine bin j of coarse channel c (file order) maps to OBSFREQ + (c
 
 def required(tier):
     b = {'orient:asc': 20, 'orient:desc': 20, 'start_chan:0': 10, 'start_chan:>0': 30, 'kind:tone': 50, 'kind:chirp': 30,
-         'kind:reducers': 20, 'stem-re-recorded': 40, 'reducer:aligned-header': 8, 'reducer:key-begins-with-END': 4, 'chirp:neg': 8, 'chirp:pos': 8, 'array': 10, 'reducer:from_raw': 10, 'reducer:directio-off': 3, 'reducer:directio-on': 3}
+         'kind:reducers': 20, 'stem-re-recorded': 40, 'reducer:aligned-header': 8, 'reducer:key-begins-with-END': 4, 'chirp:neg': 8, 'chirp:pos': 8, 'array': 10, 'reducer:from_raw': 10, 'reducer:directio-off': 3, 'reducer:directio-on': 3, 'tone:mm-wave-band-sub-Hz-bins': 10}
     return {'buckets': b, 'counters': {'tones_located': 60, 'chirp_rows_located': 60}, 'checks': 300, 'nontrivial': 60}
 
 
@@ -39,6 +39,11 @@ def gen_cases(seed, tier):
         L = int(common.pick(rng, [8, 16, 32, 64] + ([256] if tier == 'thorough' else [])))
         if kind == 'chirp':
             L = int(common.pick(rng, [32, 64] + ([256] if tier == 'thorough' else [])))
+        # millimetre-wave band at sub-Hz resolution: the header must carry the band centre to far better than one part in 1e12
+        hires = kind == 'tone' and common.stratum(i, 75, 5) == 0
+        if hires:
+            P = int(common.pick(rng, [16, 32]))
+            L = int(common.pick(rng, [512, 1024]))
         nchan = int(rng.integers(1, min(P // 2 - 1, 6) + 1))
         sc_kind = common.stratum(i, 72, 3)
         maxsc = P // 2 - nchan
@@ -46,6 +51,8 @@ def gen_cases(seed, tier):
         asc = bool(common.stratum(i, 73, 2))
         M = int(common.pick(rng, [2, 4, 8]))
         rows = int(rng.integers(4, 13)) if kind != 'chirp' else int(rng.integers(10, 25))
+        if hires:
+            rows = int(rng.integers(4, 7))
         spb_need = L * rows
         mult = -(-spb_need // M)
         nblocks = 1 if kind != 'chirp' else int(rng.integers(1, 3))
@@ -54,6 +61,9 @@ def gen_cases(seed, tier):
                                   noise_std=1.0, bg_noise_std=0.0, period_dig=1, period_rq=1, N_dig=10000, N_rq=10000,
                                   sample_rate=float(common.pick(rng, [3e9, 2.4e9, 1e6, 48000.0])),
                                   fch1=float(common.pick(rng, [0.0, 1e9, 6e9, 8.4213e9])))
+        if hires:
+            cfg['sample_rate'] = float(common.pick(rng, [4096.0, 8192.0]))
+            cfg['fch1'] = float(common.pick(rng, [230.538e9 + 0.45, 115.2712018e9 + 0.3, 1.00000000123e11, 345.7959899e9 + 0.7]))
         if kind == 'reducers':
             cfg['npol'] = 2
             cfg['nants'] = 1
@@ -85,7 +95,7 @@ def gen_cases(seed, tier):
                     break
             j, frac = int(np.floor(side * s0)), float(side * s0 - np.floor(side * s0))
             drift_bins = side * (s1 - s0)
-        cases.append(dict(kind=kind, cfg=cfg, L=L, cabs=cabs, j=j, frac=frac, drift_bins=drift_bins,
+        cases.append(dict(kind=kind, hires=bool(hires), cfg=cfg, L=L, cabs=cabs, j=j, frac=frac, drift_bins=drift_bins,
                           intf=int(rng.integers(1, 9)), level=float(rng.uniform(0.3, 1.0)),
                           directio=int(common.stratum(i, 74, 2)), sub=int(rng.integers(2 ** 31))))
     return cases
@@ -107,6 +117,8 @@ def run_case(c, R):
     R.bucket('orient:asc' if cfg['asc'] else 'orient:desc')
     R.bucket('start_chan:0' if cfg['start_chan'] == 0 else 'start_chan:>0')
     R.bucket('kind:' + c['kind'])
+    if c.get('hires'):
+        R.bucket('tone:mm-wave-band-sub-Hz-bins')
     if cfg['nants'] > 1:
         R.bucket('array')
     sz = work_raw.sizes(cfg)
